@@ -219,6 +219,14 @@ MUTANTS = [
     ('aa7-silent', 'fsm.py',
      "        self.primitive = pdu.AAbortPDU(source=2, reason_diag=0)\n        self.dul_socket.sendall(self.primitive.encode())\n        return States.STA_13",
      "        self.primitive = pdu.AAbortPDU(source=2, reason_diag=0)\n        return States.STA_13", ['C04', 'C12']),
+    # round 12
+    ('ae1-only-connection-errors', 'fsm.py', '        except socket.error:\n            # Transport connection can not be opened',
+     '        except ConnectionError:\n            # Transport connection can not be opened', ['C04', 'C13']),
+    ('user-queue-bounded', 'dulprovider.py', 'self.to_service_user = queue.Queue()',
+     'self.to_service_user = queue.Queue(maxsize=64)', ['C14']),
+    ('requester-local-zero-wins', 'asceprovider.py',
+     'if max_pdu_length and (self.max_pdu_length or 2 ** 32) > max_pdu_length:',
+     'if max_pdu_length and self.max_pdu_length > max_pdu_length:', ['C06', 'C10']),
 ]
 
 
